@@ -1,8 +1,172 @@
+import DeapModel.Core.Heap
 import Driver.Proto
-/-! Protocol handler for C16 (stub until the model is built). -/
+/-!
+Protocol handler for C16 (object heap: create / clone / pickle / toolbox).
+
+Tokens (after `C16`):
+* class table `<ct>`: `;`-separated `kind/inst` with `inst` = `name=cls,…` or `-`; `-` = empty table
+* heap `<heap>`: `;`-separated objects in oid order `cls/m/items/attrs`, `m` ∈ {0,1}, `items` =
+  comma list of values or `-`, `attrs` = `name=val,…` or `-`; `-` = empty heap
+* value: `a<int>` (atom) or `r<oid>` (reference)
+
+Answers
+* graph dump (identity-aware): `roots|obj₀|obj₁|…` — the objects allocated by the operation in
+  depth-first order from the roots (items first, then attributes by ascending name), references
+  printed as `n<k>` (k-th allocated object met), `o<oid>` (an object of the input heap, i.e. shared
+  with the original), `u<oid>` (dangling)
+* tree dump (identity-free): nested terms `<cls/m/v,v/k=v,k=v>`
+-/
 namespace DriverC16
+open Proto Heap
+
+def parseVal (s : String) : Option Val :=
+  if s.startsWith "a" then (s.drop 1).toString.toInt?.map Val.atom
+  else if s.startsWith "r" then (s.drop 1).toString.toNat?.map Val.ref
+  else none
+
+def parseKind : String → Option Kind
+  | "plain" => some .plain | "ctor" => some .ctor | "fitness" => some .fitness
+  | "cfitness" => some .cfitness | "tree" => some .tree | "nparr" => some .nparr
+  | "pyarr" => some .pyarr | "node" => some .node | _ => none
+
+def parsePair {β : Type} (p : String → Option β) (s : String) : Option (Nat × β) :=
+  match s.splitOn "=" with
+  | [k, v] => do let k ← k.toNat?; let v ← p v; pure (k, v)
+  | _ => none
+
+def parseClass (s : String) : Option ClassInfo :=
+  match s.splitOn "/" with
+  | [k, inst] => do
+      let k ← parseKind k
+      let inst ← parseList (parsePair parseNat) inst
+      pure { kind := k, dictInst := inst, dictCls := [] }
+  | _ => none
+
+def parseCt (s : String) : Option ClassTable :=
+  if s = "-" then some [] else (s.splitOn ";").mapM parseClass
+
+def parseObj (s : String) : Option Obj :=
+  match s.splitOn "/" with
+  | [c, m, items, attrs] => do
+      let c ← c.toNat?
+      let m ← parseBool m
+      let items ← parseList parseVal items
+      let attrs ← parseList (parsePair parseVal) attrs
+      pure { cls := c, items := items, attrs := attrs, mutable := m }
+  | _ => none
+
+def parseHeap (s : String) : Option (List Obj) :=
+  if s = "-" then some [] else (s.splitOn ";").mapM parseObj
+
+def heapFn (l : List Obj) : Oid → Option Obj := fun y => l[y]?
+
+/-- insertion sort of an attribute list by name (names are unique) -/
+def insertAttr (p : Name × Val) : List (Name × Val) → List (Name × Val)
+  | [] => [p]
+  | q :: r => if p.1 < q.1 then p :: q :: r else if p.1 = q.1 then q :: r else q :: insertAttr p r
+
+def sortAttrs (l : List (Name × Val)) : List (Name × Val) := l.foldr insertAttr []
+
+/-- Depth-first order of the objects allocated at or after `n0` reachable from `v`. -/
+def visit (objs : Oid → Option Obj) (n0 : Nat) : Nat → List Oid → Val → List Oid
+  | _, seen, .atom _ => seen
+  | 0, seen, .ref _ => seen
+  | f + 1, seen, .ref x =>
+    if x < n0 then seen
+    else if seen.contains x then seen
+    else match objs x with
+      | none => seen ++ [x]
+      | some o =>
+        (o.items ++ (sortAttrs o.attrs).map (·.2)).foldl (visit objs n0 f) (seen ++ [x])
+
+def indexOf (x : Oid) : List Oid → Nat → Option Nat
+  | [], _ => none
+  | y :: r, i => if y = x then some i else indexOf x r (i + 1)
+
+def showRef (objs : Oid → Option Obj) (n0 : Nat) (order : List Oid) : Val → String
+  | .atom a => "a" ++ toString a
+  | .ref x =>
+    if x < n0 then "o" ++ toString x
+    else match objs x, indexOf x order 0 with
+      | some _, some i => "n" ++ toString i
+      | _, _ => "u" ++ toString x
+
+def showObj (sv : Val → String) (o : Obj) : String :=
+  toString o.cls ++ "/" ++ showBool o.mutable ++ "/" ++ showList sv o.items ++ "/" ++
+    showList (fun (p : Name × Val) => toString p.1 ++ "=" ++ sv p.2) (sortAttrs o.attrs)
+
+def graphDump (objs : Oid → Option Obj) (n0 fuel : Nat) (roots : List Val) : String :=
+  let order := roots.foldl (visit objs n0 fuel) []
+  let sv := showRef objs n0 order
+  "|".intercalate (showList sv roots :: order.map (fun x =>
+    match objs x with
+    | some o => showObj sv o
+    | none => "undefined"))
+
+/-- Identity-free nested term; objects below `n0` are printed as `o<oid>`. -/
+def treeDump (objs : Oid → Option Obj) (n0 : Nat) : Nat → Val → String
+  | _, .atom a => "a" ++ toString a
+  | 0, .ref x => "deep" ++ toString x
+  | f + 1, .ref x =>
+    if x < n0 then "o" ++ toString x
+    else match objs x with
+      | none => "u" ++ toString x
+      | some o => "<" ++ showObj (treeDump objs n0 f) o ++ ">"
+
+def parseKw (s : String) : Option (List (Name × Int)) := parseList (parsePair parseInt) s
+
+def showKw (l : List (Name × Int)) : String :=
+  showList (fun (p : Name × Int) => toString p.1 ++ "=" ++ toString p.2) l
 
 def handle : List String → String
+  | ["clone", cts, hs, root, ks] =>
+    match (do let ct ← parseCt cts; let h ← parseHeap hs; let v ← parseVal root; let k ← ks.toNat?
+              pure (ct, h, v, k)) with
+    | some (ct, h, v, k) =>
+      let fuel := h.length + 2
+      match cloneChain ct fuel k (heapFn h) h.length v with
+      | some (objs, next, vs) => graphDump objs h.length (next + 2) vs
+      | none => "fail"
+    | none => "bad-op"
+  | ["pickle", cts, hs, root, target] =>
+    match (do let ct ← parseCt cts; let h ← parseHeap hs; let v ← parseVal root
+              let same ← (if target = "same" then some true else if target = "empty" then some false else none)
+              pure (ct, h, v, same)) with
+    | some (ct, h, v, same) =>
+      let fuel := h.length + 2
+      let (objs0, n0) : (Oid → Option Obj) × Nat := if same then (heapFn h, h.length) else (fun _ => none, 0)
+      match pickleRoundTrip ct fuel (heapFn h) v objs0 n0 with
+      | some (objs, next, v') => treeDump objs n0 (next + 2) v'
+      | none => "fail"
+    | none => "bad-op"
+  | ["create", cts, cs, items, counts] =>
+    match (do let ct ← parseCt cts; let c ← cs.toNat?; let it ← parseList parseVal items
+              let k ← counts.toNat?; pure (ct, c, it, k)) with
+    | some (ct, c, it, k) =>
+      let step := fun (acc : Option (State × List Val)) (_ : Nat) =>
+        match acc with
+        | none => none
+        | some (st, roots) =>
+          match create ct st c it with
+          | none => none
+          | some (st', x) => some (st', roots ++ [Val.ref x])
+      match (List.range k).foldl step (some ({ objs := fun _ => none, next := 0, memo := [] }, [])) with
+      | some (st, roots) => graphDump st.objs 0 (st.next + 2) roots
+      | none => "fail"
+    | none => "bad-op"
+  | ["tb", args, kw, ndec, cargs, ckw] =>
+    match (do let a ← parseList parseInt args; let k ← parseKw kw; let n ← ndec.toNat?
+              let ca ← parseList parseInt cargs; let ck ← parseKw ckw; pure (a, k, n, ca, ck)) with
+    | some (a, k, n, ca, ck) =>
+      -- the registered function records what it is called with; decorator `i` tags its result
+      let apply := fun (f : List Nat) (xs : List Int) (kws : List (Name × Int)) =>
+        showList toString xs ++ " " ++ showKw kws ++ " " ++ showList toString f
+      let tb : List (Name × Partial (List Nat) Int) := register [] 7 [] a k
+      let ds : List (List Nat → List Nat) := (List.range n).map (fun i => fun f => f ++ [i + 1])
+      match (decorate tb 7 ds).bind (fun tb' => call apply tb' 7 ca ck) with
+      | some s => s
+      | none => "fail"
+    | none => "bad-op"
   | _ => "bad-op"
 
 end DriverC16
